@@ -97,6 +97,15 @@ func genC36(t *rapid.T) c36Case {
 			}
 			lead = append(lead, c36Step{Block: rm, Queries: rapid.SliceOfN(genQ, 2, 6).Draw(t, "q2")})
 		}
+		if rapid.Bool().Draw(t, "candidate") {
+			// a candidate node admitted to the pool, registered by its own key or by a separate owner wallet (50+L)
+			a := rapid.IntRange(0, 1).Draw(t, "cand")
+			cb := []lworld.GovOp{{Op: "regcand", A: a, L: rapid.IntRange(0, 2).Draw(t, "owner")}}
+			for v := 0; v < 4; v++ {
+				cb = append(cb, lworld.GovOp{Op: "approvecand", A: a, V: v})
+			}
+			lead = append(lead, c36Step{Block: cb, Refresh: rapid.Bool().Draw(t, "refresh3"), Queries: rapid.SliceOfN(genQ, 2, 6).Draw(t, "q3")})
+		}
 		c.Steps = append(lead, c.Steps...)
 	}
 	return c
